@@ -116,6 +116,10 @@ def register(w):
         ensures=[
             "S.startup_order_ok(S.trace_names(ghost.trace))",
             "'bind' in S.trace_names(ghost.trace)",
+            # completeness at the level of the whole start-up: what the configuration asks for is done, whoever starts the server
+            "S.count(S.trace_names(ghost.trace), 'os.chroot') == (1 if config.getboolean('pygopherd', 'usechroot') else 0)",
+            "S.count(S.trace_names(ghost.trace), 'os.setreuid') == (1 if config.has_option('pygopherd', 'setuid') else 0)",
+            "S.count(S.trace_names(ghost.trace), 'os.setregid') == (1 if config.has_option('pygopherd', 'setgid') else 0)",
         ],
         on_raise={"*": ["S.startup_order_ok(S.strip_failed(S.trace_names(ghost.trace)))",
                         "implies('FAILED' in ''.join(S.trace_names(ghost.trace)), S.aborted_cleanly(S.trace_names(ghost.trace)))"]},
